@@ -35,9 +35,11 @@ class Storage:
 
 
 class Model:
-    def __init__(self):
-        self.slot = {k: [None] * n for k, n in KINDS.items()}      # target object or None
-        self.present = {k: [False] * n for k, n in KINDS.items()}
+    def __init__(self, kinds=None):
+        kinds = kinds or KINDS
+        self.kinds = dict(kinds)
+        self.slot = {k: [None] * n for k, n in kinds.items()}      # target object or None
+        self.present = {k: [False] * n for k, n in kinds.items()}
         self.H = [Storage(HBYTES, True) for _ in range(NH)]
         for j in range(NH):
             for i in range(HBYTES):
